@@ -90,6 +90,11 @@ fn respellings(t: &str) -> Vec<String> {
     let mut out: Vec<String> = RADIXES.iter().map(|r| lit_text(v, *r)).collect();
     out.push(format!("0x{v:X}"));
     out.push(format!("0X{v:x}"));
+    // hexadecimal digits in both letter cases within one literal
+    let mixed: String = format!("{v:x}").chars().enumerate().map(|(i, c)| if i % 2 == 0 { c.to_ascii_uppercase() } else { c }).collect();
+    out.push(format!("0x{mixed}"));
+    let mixed2: String = format!("{v:x}").chars().enumerate().map(|(i, c)| if i % 2 == 1 { c.to_ascii_uppercase() } else { c }).collect();
+    out.push(format!("0X{mixed2}"));
     out.push(format!("00{v:o}"));
     // leading zeros do not change a value: more digits than 64 bits' worth
     out.push(format!("0x{v:020x}"));
